@@ -924,7 +924,8 @@ func r124as(c *an.Ctx, rule string) {
 			if l.Returns[0].S != "r.registry[name]#0" && !(present == "false" && strings.HasPrefix(l.Returns[0].S, "nil")) {
 				ok, why = false, "Remove returns "+l.Returns[0].S
 			}
-			if deleted != (present == "true") {
+			// (deleting a key that is absent does nothing: only a present client that is NOT deleted is wrong)
+			if present == "true" && !deleted {
 				ok, why = false, fmt.Sprintf("present=%s but deleted=%v", present, deleted)
 			}
 			wantCb := 0
